@@ -544,7 +544,7 @@ def run_T(spec, ctx):
                         ctx.flag("T:single-point-front")
                     if len(set(ms)) < n:
                         ctx.flag("T:duplicate-points")
-                    if cnt % 5003 == 1:
+                    if cnt % 5003 == 7:
                         ctx.sample(dict(layer="T", front=_pts(G, seq), sign=list(sign), pref=[float(x) for x in pref],
                                         expected=R.geo_dist([G.pts[i] for i in seq], sign, pref)[0]))
 
@@ -564,10 +564,14 @@ def run_shard(spec, ctx):
         before = ctx.evaluations
         run_F(spec, ctx)
         ctx.count(f"F:cases:{spec[1]}:{spec[3]}", ctx.evaluations - before)
-        if ctx.evaluations and spec[4] == 0:
+        if spec[4] == 0 and spec[2] == 3:
+            # one actual case per 3-point layer as a sample (an extra, uncounted call)
             G = Grid.get(spec[1], ctx.seed)
-            ms = G.multisets(spec[2])[0]
-            ctx.sample(dict(layer="F", points=_pts(G, ms), note="first multiset of this layer; every order and weight vector was run"))
+            ms = next(m for m in G.multisets(3) if len(set(m)) == 3 and m[0] > 0)
+            w = W(G, weight_sets(G.k, ctx.seed)[spec[3]][1][0])
+            ctx.sample(dict(layer="F", points=_pts(G, ms), wt=w.lst, mask=f_observe(G, ms, w, "mask").tolist(),
+                            index=f_observe(G, ms, w, "index").tolist(),
+                            note="every order of every multiset and every weight vector of the layer was run"))
     elif spec[0] == "D":
         run_D(spec, ctx)
     elif spec[0] == "T":
